@@ -91,6 +91,10 @@ STATEMENT_TEMPLATES = [
 	'def {n}({h}) -> int:\n\tx = 0\n\tfor i in range(a, b):\n\t\tif i {1} d:\n\t\t\tcontinue\n\t\tx += i\n\treturn x\n',
 	'def {n}({h}) -> int:\n\tx = 0\n\tfor i in range(a, b, 2):\n\t\tx = x {0} i\n\t\tif x {2} d:\n\t\t\tbreak\n\treturn x\n',
 	'def {n}({h}) -> int:\n\tx = 0\n\tfor i in range(3):\n\t\tfor j in range(i):\n\t\t\tx += a {0} j\n\treturn x\n',
+	# descending and variable-step ranges
+	'def {n}({h}) -> int:\n\tx = 0\n\tfor i in range(a, b, -1):\n\t\tx = x {0} i\n\t\tif i {1} d:\n\t\t\tbreak\n\treturn x\n',
+	'def {n}({h}) -> int:\n\tx = 0\n\tfor i in range(a, b, -2):\n\t\tx += i\n\tfor j in range(3, 0, -1):\n\t\tx = x {0} j\n\treturn x\n',
+	'def {n}({h}) -> int:\n\tx = 0\n\tfor i in range(a, b, d):\n\t\tif i {1} 0:\n\t\t\tcontinue\n\t\tx += i\n\treturn x\n',
 	# augmented assignment
 	'def {n}({h}) -> int:\n\tx = a\n\tx {3}= b {0} d\n\tx += 1\n\treturn x\n',
 	# parameters and locals reassigned inside nested blocks (declaration placement / shadowing)
